@@ -679,7 +679,7 @@ func TestPayloadShapes(t *testing.T) {
 // the next.
 func TestClosureSequence(t *testing.T) {
 	const name = "authenticity/closure-sequence"
-	ev.Rule(name, "one closure from SNPValidateFunc (genuine roots, time inside; endorsement passed as blob or fetched through the closure's getter) called 2-5 times with drawn endorsements (half unmutated); every call judged on its own: accept => authentic; non-trivial = a call after the first; distinct = (source, position, mutation, previous outcome)")
+	ev.Rule(name, "one closure from SNPValidateFunc (genuine roots, time inside; endorsement passed as blob or fetched through the closure's getter) called 2-5 times with drawn endorsements (half unmutated); every call judged on its own: accept => authentic (blob mode: the endorsement handed to that call; getter mode: the object now served OR one the object served to this closure earlier - a validator may keep and re-verify what it fetched instead of fetching again, the statement does not oblige it to see the newest object); non-trivial = a call after the first; distinct = (source, position, mutation, previous outcome)")
 	checks(ev.Scale(150, 2000))
 	rapid.Check(t, func(t *rapid.T) {
 		w := makeWorld(t)
@@ -694,6 +694,7 @@ func TestClosureSequence(t *testing.T) {
 		}
 		f := verify.SNPValidateFunc(opts)
 		prev := "first"
+		var served []*epb.VMLaunchEndorsement
 		n := rapid.IntRange(2, 5).Draw(t, "calls")
 		for i := 0; i < n; i++ {
 			kind := "none"
@@ -718,6 +719,21 @@ func TestClosureSequence(t *testing.T) {
 				return
 			}
 			refOK, why := refAuthenticAt(m.e, roots, now)
+			if viaGetter {
+				// The closure fetches the endorsement itself: it may keep what it fetched (and verifies
+				// again) instead of fetching anew, so the endorsement it accepted can be any one the
+				// object has served to it so far. Only the blob mode pins the endorsement of a call.
+				served = append(served, m.e)
+				if !refOK {
+					for _, e := range served[:len(served)-1] {
+						if ok, _ := refAuthenticAt(e, roots, now); ok {
+							refOK = true
+							ev.Class(name, "getter/current-object-unauthentic-but-an-earlier-served-one-is-authentic")
+							break
+						}
+					}
+				}
+			}
 			if err == nil && !refOK {
 				ev.Violation(t, "C01/snp/accepted-unauthentic", "call %d of one validator closure accepted an endorsement that is not authentic: %s (mutation=%s, previous call: %s)", i+1, why, kind, prev)
 				return
